@@ -184,8 +184,7 @@ static int ss_fill(int argc, char **argv)
                /* a 64-bit field with its top bit set does not fit the library's int64 storage (known limitation) */
                if (b->encoding.nbits == 64 && raw != ~0ULL) raw &= 0x3fffffffffffffffULL;
                /* a new reference value of -1 cannot be told from "missing" (known limitation): avoid it */
-               if (b->encoding.type == TYPE_CHNG_REF_VAL_OP && raw != bufr_missing_ivalue(b->encoding.nbits) &&
-                   bufr_cvt_ivalue(raw, b->encoding.nbits) == -1) raw = 0;
+               if (b->encoding.type == TYPE_CHNG_REF_VAL_OP && bufr_cvt_ivalue(raw, b->encoding.nbits) == -1) raw = 0;
                set_raw(b, raw);
                }
             break;
